@@ -189,6 +189,7 @@ pub struct C16Case {
 fn c16_strategy(_ctx: &Ctx) -> BoxedStrategy<C16Case> {
   let kinds = prop::sample::select(vec![
     "interval", "interval_unsub", "timer", "delay", "timeout", "timeout_slow", "sample", "debounce", "time_interval",
+    "interval_default", "timer_default",
   ]);
   (
     kinds,
@@ -227,6 +228,9 @@ fn c16_build(c: &C16Case) -> Case {
       actions.push(Action::Advance(c.d * 3));
       Node::Src(0, Src::Timer(c.d))
     }
+    // on the default scheduler subscribe() itself runs the timer and returns when it is over
+    "interval_default" => Node::Un(Op::Take(c.n), Box::new(Node::Src(0, Src::IntervalDefault(c.d)))),
+    "timer_default" => Node::Src(0, Src::TimerDefault(c.d)),
     "delay" => {
       emit_script(&mut actions);
       if c.ending == 0 {
@@ -318,7 +322,7 @@ fn c16_check(_ctx: &Ctx, c: &C16Case) -> Report {
   rep.nontrivial = got.len() + c.gaps.len() >= 3;
   let show = |v: &Vec<(Rk, u64)>| v.iter().map(|(k, t)| format!("{}@{}", k.show(), t)).collect::<Vec<_>>().join(" ");
   match c.kind.as_str() {
-    "interval" => {
+    "interval" | "interval_default" => {
       let mut exp: Vec<(Rk, u64)> = (0..c.n).map(|k| (Rk::N(P::I(k as i64)), (k as u64 + 1) * d)).collect();
       exp.push((Rk::C, c.n as u64 * d));
       if got != exp {
@@ -331,7 +335,7 @@ fn c16_check(_ctx: &Ctx, c: &C16Case) -> Report {
         rep.fail = fail(format!("interval({}) unsubscribed at {}: got <{}>, expected <{}>", d, d * c.n as u64 + 3, show(&got), show(&exp)));
       }
     }
-    "timer" => {
+    "timer" | "timer_default" => {
       let exp = vec![(Rk::N(P::U), d), (Rk::C, d)];
       if got != exp {
         rep.fail = fail(format!("timer({}): got <{}>, expected <{}>", d, show(&got), show(&exp)));
@@ -650,7 +654,7 @@ pub fn properties() -> Vec<Property> {
     },
     Property {
       id: "C16",
-      rule: "cases = kind in {interval.take(n), interval unsubscribed between ticks, timer, delay, timeout, sample, debounce, time_interval} x period in {10, 25} ms x gap scripts from {3,7,9,11,15,40} ms (never equal to the period) x ending x generated schedule; oracle = (virtual time, event) pairs equal the timing definition (sample/debounce: strictly increasing selection of source items; sample exact when no tick coincides with an emission); non-trivial = >= 3 timed events; two_threads: delay(d) over one hot source or a merge of two, fed by two emitting threads with generated gaps - every item is handed on exactly d after it was emitted, also while another thread's item is being delayed",
+      rule: "cases = kind in {interval.take(n), interval unsubscribed between ticks, timer, interval / timer on the default scheduler (run inside subscribe), delay, timeout, timeout with a slow subscriber, sample, debounce, time_interval} x period in {10, 25} ms x gap scripts from {3,7,9,11,15,40} ms (never equal to the period) x ending x generated schedule; oracle = (virtual time, event) pairs equal the timing definition (sample/debounce: strictly increasing selection of source items; sample exact when no tick coincides with an emission); non-trivial = >= 3 timed events; two_threads: delay(d) over one hot source or a merge of two, fed by two emitting threads with generated gaps - every item is handed on exactly d after it was emitted, also while another thread's item is being delayed",
       assumptions: vec!["virtual clock owned by the runtime (thread::sleep / Instant redirected)", "timeout arms its timer after the first item (as the statement words it)"],
       subs: vec![
         mk_sub("clock", (1000, 20_000), c16_strategy, c16_check),
